@@ -10,7 +10,7 @@ from ..worker import Worker, arg, unjson
 
 LEVEL = "exploration"
 RULE = ("cases = histories of 4-30 steps: driver-level loads, load/clone by objects (load_object, new, call_other on a path), seteuid(string | 0), "
-        "export_uid, destruct, changes of the master's valid_seteuid policy (approve all / refuse all / own uid only / root only), over files whose "
+        "export_uid, destruct, loads of files whose create() itself tries to load_object() / call_other() a further file (with whatever euid creation gave them), changes of the master's valid_seteuid policy (approve all / refuse all / own uid only / root only), over files whose "
         "creator_file is root, backbone, two wizards, open and 'no string'; after every step the (uid, euid) of every live object is compared with a "
         "reference model and the master's apply log is checked. non-trivial = the history has a refused seteuid or an euid-0 creation attempt or an "
         "export_uid; distinct = history hash")
@@ -39,6 +39,12 @@ mixed census() {
   return r;
 }
 '''
+# objects whose create() itself tries to create another object: at that moment they hold whatever euid creation gave them
+CT_FILES = ["std/ct1", "std/ct2", "u/alice/ct1", "u/bob/ct2", "open/ct1", "adm/ct2"]
+CT_SRC = {
+    "ct1": 'inherit "/t/c20base";\nmixed made;\nvoid create() { string p = "/t/director"->query_ctt(); if (p) made = catch(load_object(p)); }\nmixed query_made() { return made; }\n',
+    "ct2": 'inherit "/t/c20base";\nmixed made;\nvoid create() { string p = "/t/director"->query_ctt(); if (p) made = catch(call_other(p, "ids")); }\nmixed query_made() { return made; }\n',
+}
 UIDS = ["Root", "Backbone", "alice", "bob", "Open", "NONAME", "zed"]
 
 
@@ -76,6 +82,8 @@ def histories(draw):
             ev.append(dict(op="export", actor=draw(st.integers(0, 7)), target=draw(st.integers(0, 7))))
         elif k == 9:
             ev.append(dict(op="policy", val=draw(st.sampled_from(["allow", "deny", "own", "root"]))))
+        elif k == 10 and draw(st.booleans()):
+            ev.append(dict(op="ctload", actor=draw(st.integers(0, 7)), path=draw(st.sampled_from(CT_FILES)), target=draw(files)))
         elif k == 10:
             ev.append(dict(op="destruct", actor=draw(st.integers(0, 7))))
         else:
@@ -130,6 +138,10 @@ def evaluate_case(ctx, w, case):
         elif e["op"] in ("load", "clone", "call_other"):
             steps.append(["call", "t/director", "act_create", arg(e["actor"]), arg(e["op"]), arg("/" + e["path"])])
             steps.append(["call", "t/director", "nop"])
+        elif e["op"] == "ctload":
+            steps.append(["call", "t/director", "set_ctt", arg("/" + e["target"])])
+            steps[-1:] = [["call", "t/director", "set_ctt", arg("/" + e["target"])],
+                          ["call", "t/director", "act_ctcreate", arg(e["actor"]), arg("/" + e["path"]), arg("/" + e["target"])]]
         elif e["op"] == "export":
             steps.append(["call", "t/director", "act_export", arg(e["actor"]), arg(e["target"])])
             steps.append(["call", "t/director", "nop"])
@@ -211,6 +223,27 @@ def evaluate_case(ctx, w, case):
                         m.create(val, e["path"], actor)
                     elif not exists:
                         m.create(name, e["path"], actor)
+            elif e["op"] == "ctload":
+                # the actor loads a file whose create() tries to load / call into a second file
+                r = r2 or {}
+                st2 = r.get("st")
+                name, tname = "/" + e["path"], "/" + e["target"]
+                if name in m.obs:
+                    pass                                   # already loaded: create() does not run again
+                elif m.obs[actor][1] == 0:
+                    feats.add("euid0-creation-attempt")
+                    if st2 != "err":
+                        return ("euid0-object-created-something", "%s by %s (euid 0) gave %r\n%s" % (where, actor, r, hist)), None
+                else:
+                    if st2 != "val":
+                        return ("creation-failed", "%s by %s gave %r\n%s" % (where, actor, r, hist)), None
+                    m.create(name, e["path"], actor)
+                    if tname not in m.obs:
+                        if m.obs[name][1] == 0:
+                            feats.add("euid0-creation-attempt")     # from inside create(): must be refused; the census below shows if it was not
+                            feats.add("create-time-attempt")
+                        else:
+                            m.create(tname, e["target"], name)
             elif e["op"] == "export":
                 target = live[e["target"] % len(live)]
                 feats.add("export_uid")
@@ -241,6 +274,9 @@ string *order = ({ });
 void create() { seteuid(getuid()); }
 void note(string n) { if (member_array(n, order) == -1) order += ({ n }); }
 void nop() { }
+string ctt;
+void set_ctt(string p) { ctt = p; }
+string query_ctt() { string p = ctt; ctt = 0; return p; }
 string *live() { return filter(order, (: find_object($1) :)); }
 object actor(int k) { string *l = live(); return sizeof(l) ? find_object(l[k % sizeof(l)]) : 0; }
 mixed act_seteuid(int k, mixed v) { object a = actor(k); if (!a) return -5; if (v == "OWN") v = getuid(a); return a->do_seteuid(v); }
@@ -251,6 +287,11 @@ mixed act_create(int k, string how, string path) {
   else if (how == "clone") { r = a->do_clone(path); note(path); }
   else { r = a->do_call_other(path); r = path; }
   if (stringp(r)) { if (how != "clone") note(path); else note(r); }
+  return r;
+}
+mixed act_ctcreate(int k, string path, string target) {
+  mixed r = act_create(k, "load", path);
+  if (find_object(target)) note(target);
   return r;
 }
 mixed act_export(int k, int t) { object a = actor(k), b = actor(t); if (!a || !b) return -5; return a->do_export(file_name(b)); }
@@ -266,6 +307,8 @@ def get_worker(ctx):
         fl = {"t/c20base.c": BASE, "census.c": CENSUS, "t/director.c": DIRECTOR}
         for f in FILES:
             fl[f + ".c"] = 'inherit "/t/c20base";\n'
+        for f in CT_FILES:
+            fl[f + ".c"] = CT_SRC[f.rsplit("/", 1)[1]]
         w = Worker(ctx.scratch("w"), timeout=20, mudlib_files=fl)
         _workers[ctx.rundir] = w
     return w
